@@ -11,6 +11,7 @@ import (
 	"runtime"
 	"runtime/debug"
 	"strings"
+	"unsafe"
 )
 
 // Kind of a pending operation (used for traces and independence checks).
@@ -48,6 +49,7 @@ const (
 
 var kindNames = [...]string{"start", "lock", "rlock", "wlockwait", "atomic", "wgadd", "wgwait", "once", "pool", "recv", "send", "close", "map", "cread", "cwrite", "cclose", "accept", "join", "yield", "quiesce", "gate", "choose", "sleep", "other", "aload", "mapread", "spawn"}
 
+//go:norace
 func (k Kind) String() string { return kindNames[k] }
 
 // Thread is one managed goroutine.
@@ -64,9 +66,15 @@ type Thread struct {
 	h       uint64 // hash of this thread's causal history (happens-before signature)
 	sid     uint64 // stable identity: hash of the spawn event
 	nspawn  uint64
+	tok     byte // race-detector token: thread exit happens-before a Join of the thread
 }
 
+//go:norace
+func (t *Thread) isDone() bool { return t.done }
+
 // Done reports whether the thread has finished.
+//
+//go:norace
 func (t *Thread) Done() bool { return t.done }
 
 // ChoicePoint is one recorded scheduling or environment decision.
@@ -111,18 +119,94 @@ type Exec struct {
 	Obs     []string
 	// StepHook, if set, runs (on the scheduler's stack, current thread) at every point.
 	StepHook func()
-	closed   map[uintptr]bool
+	closed   []uintptr
 	resets   []func()
 	Data     map[string]interface{}
 	TraceLog []string
 	abortOps int
 	KeyTag   string // prepended to the key of any violation of this execution (scenario context that identifies a finding)
 
-	objs map[interface{}]*objState
+	objs objTable
 }
 
-type objState struct{ last, reads uint64 }
+type objState struct {
+	k           objKey
+	used        bool
+	last, reads uint64
+}
 
+// objKey identifies a shared object: the two words of the interface value (pointers, uintptrs) or an interned string.
+type objKey struct{ a, b uintptr }
+
+// objTable is a small open-addressing hash table. It is not a Go map because the runtime reports
+// map accesses to the race detector even from //go:norace functions.
+type objTable struct {
+	slots []objState
+	n     int
+	strs  []string
+}
+
+//go:norace
+func (t *objTable) key(obj interface{}) objKey {
+	switch v := obj.(type) {
+	case string:
+		for i, s := range t.strs {
+			if s == v {
+				return objKey{1, uintptr(i)}
+			}
+		}
+		t.strs = append(t.strs, v)
+		return objKey{1, uintptr(len(t.strs) - 1)}
+	case uintptr:
+		return objKey{2, v}
+	}
+	e := (*[2]uintptr)(unsafe.Pointer(&obj))
+	return objKey{e[0], e[1]}
+}
+
+//go:norace
+func (t *objTable) get(obj interface{}) (*objState, bool) {
+	if len(t.slots) == 0 {
+		t.slots = make([]objState, 512)
+	}
+	if t.n*2 > len(t.slots) {
+		old := t.slots
+		t.slots = make([]objState, len(old)*2)
+		t.n = 0
+		for i := range old {
+			if old[i].used {
+				s, _ := t.find(old[i].k)
+				*s = old[i]
+				t.n++
+			}
+		}
+	}
+	k := t.key(obj)
+	s, found := t.find(k)
+	if !found {
+		s.k, s.used = k, true
+		t.n++
+	}
+	return s, found
+}
+
+//go:norace
+func (t *objTable) find(k objKey) (*objState, bool) {
+	mask := uintptr(len(t.slots) - 1)
+	h := (k.a*0x9e3779b97f4a7c15 ^ k.b*0xbf58476d1ce4e5b9)
+	h ^= h >> 29
+	for i := h & mask; ; i = (i + 1) & mask {
+		s := &t.slots[i]
+		if !s.used {
+			return s, false
+		}
+		if s.k == k {
+			return s, true
+		}
+	}
+}
+
+//go:norace
 func mix(a, b uint64) uint64 {
 	x := a*0x9e3779b97f4a7c15 ^ (b + 0x7f4a7c15ca11ab1e + (a << 6) + (a >> 2))
 	x ^= x >> 31
@@ -136,6 +220,7 @@ func mix(a, b uint64) uint64 {
 // Multi is an operation's object list when it touches more than one shared object.
 type Multi []interface{}
 
+//go:norace
 func isRead(k Kind) bool {
 	return k == KRLock || k == KAtomicLoad || k == KMapRead || k == KWgWait
 }
@@ -144,7 +229,12 @@ func isRead(k Kind) bool {
 // happens-before signature: every operation depends on the previous
 // operation of its thread and on the conflicting operations on its object
 // (all earlier writes; for a write also all earlier reads).
+//
+//go:norace
 func (x *Exec) event(t *Thread, kind Kind, obj interface{}) {
+	if NoSig {
+		return
+	}
 	h := mix(t.h, uint64(kind)+1)
 	switch kind {
 	case KJoin:
@@ -178,13 +268,13 @@ func (x *Exec) event(t *Thread, kind Kind, obj interface{}) {
 	x.event1(t, kind, obj)
 }
 
+//go:norace
 func (x *Exec) event1(t *Thread, kind Kind, obj interface{}) {
 	h := t.h
-	o := x.objs[obj]
-	if o == nil {
+	o, found := x.objs.get(obj)
+	if !found {
 		// named by its first-touch event, which is the same in all equivalent interleavings
-		o = &objState{last: mix(t.h, 0x0b1ec7)}
-		x.objs[obj] = o
+		o.last = mix(t.h, 0x0b1ec7)
 	}
 	h = mix(h, o.last)
 	if isRead(kind) {
@@ -198,6 +288,8 @@ func (x *Exec) event1(t *Thread, kind Kind, obj interface{}) {
 }
 
 // stateSig is the signature of the current global state (all thread histories + who is running).
+//
+//go:norace
 func (x *Exec) stateSig(self *Thread) uint64 {
 	var s uint64
 	for _, t := range x.threads {
@@ -215,8 +307,14 @@ func (x *Exec) stateSig(self *Thread) uint64 {
 
 var cur *Exec // the active execution (nil outside runs)
 
+var execTok byte
+
 // Trace, when non-nil, receives one line per scheduling decision (debugging aid).
 var Trace func(*Exec, string)
+
+// NoSig disables the happens-before signature bookkeeping (used by race-mode workers, which search without state caching:
+// the signature tables are Go maps, whose accesses the runtime reports to the race detector regardless of //go:norace).
+var NoSig bool
 
 // KindHist, when non-nil, counts scheduling points per kind/object type (debugging aid).
 var KindHist map[string]int
@@ -232,6 +330,8 @@ func On() bool { return cur != nil && !cur.aborting }
 func Aborting() bool { return cur != nil && cur.aborting }
 
 // X returns the active execution.
+//
+//go:norace
 func X() *Exec { return cur }
 
 //go:norace
@@ -255,6 +355,8 @@ func (x *Exec) waitController() {
 func (x *Exec) give(id int) { x.turn = id }
 
 // Logf appends to the observation log of the execution.
+//
+//go:norace
 func Logf(format string, a ...interface{}) {
 	if cur == nil {
 		return
@@ -263,6 +365,8 @@ func Logf(format string, a ...interface{}) {
 }
 
 // Failf records an oracle violation and aborts the execution.
+//
+//go:norace
 func Failf(format string, a ...interface{}) {
 	x := cur
 	if x == nil {
@@ -274,16 +378,33 @@ func Failf(format string, a ...interface{}) {
 	x.fail(VFail, fmt.Sprintf(format, a...))
 }
 
+//go:norace
 func (x *Exec) fail(verdict, detail string) {
 	if x.Verdict == "" {
 		x.Verdict = verdict
 		x.Detail = detail
 	}
-	x.aborting = true
+	x.beginAbort()
 	runtime.Goexit()
 }
 
+// AbortHook, when set, runs once per execution at the moment it stops being a faithful execution
+// (normal end, violation, deadlock, horizon): before any teardown code of the threads runs.
+var AbortHook func(x *Exec)
+
+//go:norace
+func (x *Exec) beginAbort() {
+	if !x.aborting {
+		x.aborting = true
+		if AbortHook != nil {
+			AbortHook(x)
+		}
+	}
+}
+
 // Tag sets the context tag that becomes part of the identity of any violation found in this execution.
+//
+//go:norace
 func Tag(s string) {
 	if cur != nil {
 		cur.KeyTag = s
@@ -291,15 +412,27 @@ func Tag(s string) {
 }
 
 // Closed bookkeeping for channels (keyed by channel pointer).
+//
+//go:norace
 func (x *Exec) MarkClosed(p uintptr) {
-	if x.closed == nil {
-		x.closed = map[uintptr]bool{}
+	if !x.IsClosed(p) {
+		x.closed = append(x.closed, p)
 	}
-	x.closed[p] = true
 }
-func (x *Exec) IsClosed(p uintptr) bool { return x.closed[p] }
+
+//go:norace
+func (x *Exec) IsClosed(p uintptr) bool {
+	for _, c := range x.closed {
+		if c == p {
+			return true
+		}
+	}
+	return false
+}
 
 // Spawn creates a new managed thread running fn. It is not a scheduling point.
+//
+//go:norace
 func Spawn(name string, fn func()) *Thread {
 	x := cur
 	if x == nil {
@@ -324,42 +457,52 @@ func Spawn(name string, fn func()) *Thread {
 
 // SpawnDaemon is Spawn for a thread that never keeps the system "busy":
 // it is ignored by Quiesce and by deadlock detection of others.
+//
+//go:norace
 func SpawnDaemon(name string, fn func()) *Thread {
 	t := Spawn(name, fn)
 	t.daemon = true
 	return t
 }
 
+//go:norace
 func (x *Exec) threadMain(t *Thread) {
-	defer func() {
-		if p := recover(); p != nil {
-			if !x.aborting {
-				if x.Verdict == "" {
-					x.Verdict = VPanic
-					x.Detail = fmt.Sprintf("escaped panic in thread %d(%s): %v\n%s", t.ID, t.Name, p, trimStack(string(debug.Stack())))
-				}
-				x.aborting = true
-			}
-		}
-		t.done = true
-		if x.aborting {
-			x.give(-1)
-			return
-		}
-		// normal exit: pick a successor (free switch)
-		x.cur = nil
-		if t.ID == 0 {
-			// main thread finished: the execution is over
-			x.finished = true
-			x.aborting = true
-			x.give(-1)
-			return
-		}
-		x.schedule(nil)
-	}()
+	defer x.threadExit(t)
 	x.park(t)
 	t.started = true
 	t.fn()
+}
+
+// threadExit is the deferred epilogue of every managed thread.
+//
+//go:norace
+func (x *Exec) threadExit(t *Thread) {
+	if p := recover(); p != nil {
+		if !x.aborting {
+			if x.Verdict == "" {
+				x.Verdict = VPanic
+				x.Detail = fmt.Sprintf("escaped panic in thread %d(%s): %v\n%s", t.ID, t.Name, p, trimStack(string(debug.Stack())))
+			}
+			x.beginAbort()
+		}
+	}
+	raceRelease(unsafe.Pointer(&t.tok))
+	raceReleaseMerge(unsafe.Pointer(&execTok))
+	t.done = true
+	if x.aborting {
+		x.give(-1)
+		return
+	}
+	// normal exit: pick a successor (free switch)
+	x.cur = nil
+	if t.ID == 0 {
+		// main thread finished: the execution is over
+		x.finished = true
+		x.beginAbort()
+		x.give(-1)
+		return
+	}
+	x.schedule(nil)
 }
 
 func trimStack(s string) string {
@@ -371,6 +514,8 @@ func trimStack(s string) string {
 }
 
 // enabledList returns enabled threads in canonical order: running thread first (if enabled), then ascending ids.
+//
+//go:norace
 func (x *Exec) enabledList(self *Thread) []*Thread {
 	var out []*Thread
 	if self != nil && !self.done && (self.en == nil || self.en()) && self.kind != KQuiesce {
@@ -414,6 +559,8 @@ func (x *Exec) enabledList(self *Thread) []*Thread {
 
 // schedule picks the next thread. self is the calling thread (nil when it has exited).
 // It returns when self is allowed to proceed.
+//
+//go:norace
 func (x *Exec) schedule(self *Thread) {
 	x.Steps++
 	if x.StepHook != nil {
@@ -424,7 +571,7 @@ func (x *Exec) schedule(self *Thread) {
 			if x.Verdict == "" {
 				x.Verdict = VHorizon
 			}
-			x.aborting = true
+			x.beginAbort()
 			x.give(-1)
 			return
 		}
@@ -441,7 +588,7 @@ func (x *Exec) schedule(self *Thread) {
 				x.Verdict = VDeadlock
 				x.Detail = detail
 			}
-			x.aborting = true
+			x.beginAbort()
 			x.give(-1)
 			return
 		}
@@ -457,7 +604,7 @@ func (x *Exec) schedule(self *Thread) {
 				msg := fmt.Sprintf("replay divergence: choice %d wants alternative %d of %d", k, idx, len(en))
 				if self == nil {
 					x.Verdict, x.Detail = VDiverge, msg
-					x.aborting = true
+					x.beginAbort()
 					x.give(-1)
 					return
 				}
@@ -499,6 +646,7 @@ func (x *Exec) schedule(self *Thread) {
 	}
 }
 
+//go:norace
 func (x *Exec) describeBlocked() string {
 	var b strings.Builder
 	b.WriteString("no enabled thread; blocked: ")
@@ -511,6 +659,7 @@ func (x *Exec) describeBlocked() string {
 	return b.String()
 }
 
+//go:norace
 func objString(o interface{}) string {
 	switch v := o.(type) {
 	case nil:
@@ -534,6 +683,8 @@ func objString(o interface{}) string {
 
 // Point is a scheduling point placed before a visible operation of the running thread.
 // en (may be nil) tells whether the operation could proceed now.
+//
+//go:norace
 func Point(kind Kind, obj interface{}, en func() bool) {
 	x := cur
 	if x == nil {
@@ -555,6 +706,8 @@ func Point(kind Kind, obj interface{}, en func() bool) {
 
 // Block is Point for operations that must not proceed during teardown
 // (the caller would otherwise fall into a real blocking operation).
+//
+//go:norace
 func Block(kind Kind, obj interface{}, en func() bool) {
 	x := cur
 	if x == nil {
@@ -575,6 +728,8 @@ func Block(kind Kind, obj interface{}, en func() bool) {
 
 // abortSpin bounds the work a thread may do while it is being torn down: shim operations are
 // no-ops then, so a retry loop that relies on them to make progress would never end.
+//
+//go:norace
 func (x *Exec) abortSpin() {
 	x.abortOps++
 	if x.abortOps > 3000 {
@@ -584,9 +739,13 @@ func (x *Exec) abortSpin() {
 }
 
 // Yield is an explicit scheduling point.
+//
+//go:norace
 func Yield() { Point(KYield, nil, nil) }
 
 // Choose is an environment choice among n alternatives (cost 0).
+//
+//go:norace
 func Choose(n int, what string) int {
 	x := cur
 	if x == nil || n <= 1 {
@@ -609,11 +768,16 @@ func Choose(n int, what string) int {
 }
 
 // Join blocks (in the model) until t has finished.
+//
+//go:norace
 func Join(t *Thread) {
-	Block(KJoin, t, func() bool { return t.done })
+	Block(KJoin, t, t.isDone)
+	raceAcquire(unsafe.Pointer(&t.tok))
 }
 
 // Quiesce blocks the caller until no other non-daemon thread is enabled.
+//
+//go:norace
 func Quiesce() {
 	x := cur
 	if x == nil || x.aborting {
@@ -623,6 +787,8 @@ func Quiesce() {
 }
 
 // Live returns the number of unfinished threads other than the caller.
+//
+//go:norace
 func Live() int {
 	x := cur
 	n := 0
@@ -635,20 +801,24 @@ func Live() int {
 }
 
 // BlockedDesc describes unfinished threads (for oracles reporting hangs).
+//
+//go:norace
 func BlockedDesc() string { return cur.describeBlocked() }
 
 // OnReset registers fn to run after every execution (process-global state reset).
 var resetHooks []func()
 
+//go:norace
 func OnReset(fn func()) { resetHooks = append(resetHooks, fn) }
 
 // Run executes body as thread 0 under the given choice prefix.
+//
+//go:norace
 func Run(prefix []int, horizon int, body func()) *Exec {
 	if cur != nil {
 		panic("vsched.Run: nested run")
 	}
-	x := &Exec{prefix: prefix, Horizon: horizon, turn: -1, Data: map[string]interface{}{},
-		objs: make(map[interface{}]*objState, 256)}
+	x := &Exec{prefix: prefix, Horizon: horizon, turn: -1, Data: map[string]interface{}{}}
 	cur = x
 	t0 := &Thread{ID: 0, Name: "main", kind: KStart, fn: body, sid: 0x1001, h: 0x1001}
 	x.threads = append(x.threads, t0)
@@ -657,7 +827,7 @@ func Run(prefix []int, horizon int, body func()) *Exec {
 	x.give(0)
 	x.waitController()
 	// teardown: resume every unfinished thread, one at a time, in abort mode
-	x.aborting = true
+	x.beginAbort()
 	for i := 0; i < len(x.threads); i++ { // threads may not grow during abort
 		t := x.threads[i]
 		if t.done {
@@ -667,6 +837,7 @@ func Run(prefix []int, horizon int, body func()) *Exec {
 		x.give(t.ID)
 		x.waitController()
 	}
+	raceAcquire(unsafe.Pointer(&execTok)) // everything the threads of this execution did happens-before the next execution
 	cur = nil
 	for _, fn := range resetHooks {
 		fn()
